@@ -266,7 +266,13 @@ impl Classes {
             Some(i) => {
                 let r = self.find(i);
                 let n = self.parent.len();
-                (0..n).filter(|j| self.find(*j) == r).map(|j| self.cells[j].clone()).collect()
+                let mut out = vec![];
+                for j in 0..n {
+                    if self.find(j) == r {
+                        out.push(self.cells[j].clone());
+                    }
+                }
+                out
             }
         }
     }
